@@ -18,6 +18,7 @@
 //
 //	reset <nclients> <limit> <nfwd>      submit <payload> <pri> <fwd>     submitshort <payload> <pri> <fwd>
 //	fetch <max>   breset   flush   recv <cid> <fwd> <id>...   kill <cid> <fwd>   cancel <h>   close
+//	flushwait <h>... (getClientAndSend with the connection down; callers h cancel while send waits)
 //	sendfail <cid> <fwd> <0|1>   lockrec <cid> <0|1>   setlimit <cid> <n>   cfgcancel <0|1>   panicloop   audit
 //	bb <scenario> <seed> <nconn> <ncallers> <nreq> <faults>
 package main
@@ -46,6 +47,7 @@ import (
 	"github.com/tikv/client-go/v2/util"
 	"github.com/tikv/client-go/v2/verifx/vx"
 	"google.golang.org/grpc"
+	"google.golang.org/grpc/backoff"
 	"google.golang.org/grpc/connectivity"
 	"google.golang.org/grpc/credentials/insecure"
 	"google.golang.org/grpc/metadata"
@@ -152,6 +154,10 @@ func (f *fakeStream) SendMsg(m any) error {
 			f.w.fails = append(f.w.fails, fmt.Sprintf("unknown-request-on-wire id=%d", id))
 			continue
 		}
+		// pairing of the outgoing batch: the i-th request must be the request of the entry registered under the i-th id
+		if reg := f.w.v.ReqOf(f.cid, id); reg != nil && reg != req.Requests[i] {
+			f.w.fails = append(f.w.fails, fmt.Sprintf("misaligned-batch id=%d travels-with-request-of h=%d registered-for h=%d", id, h, f.w.reqToH[reg]))
+		}
 		if old, dup := f.w.wire[int(id)]; dup {
 			// the scripted server keeps answering the FIRST request it got under this id (like a real store whose
 			// response to the old request is still on its way)
@@ -217,7 +223,10 @@ type wb struct {
 	// sibling WON), so sibKilled = false implies sib = false.
 	sibKilled map[[2]int]bool
 	limits    []int64
-	stuckSeen bool
+	stuckSeen   bool
+	hh          *H
+	pendingRets []string
+	failsShown  int
 }
 
 type H struct {
@@ -227,6 +236,7 @@ type H struct {
 	restore  func()
 	srvAddr  string
 	targetNo int
+	readySrv *grpc.Server // the loopback server that only keeps the white-box connections Ready
 }
 
 func (h *H) interceptor(cid int) grpc.StreamClientInterceptor {
@@ -252,30 +262,64 @@ func (h *H) interceptor(cid int) grpc.StreamClientInterceptor {
 	}
 }
 
-func (h *H) setup() {
-	util.EnableFailpoints()
-	lis, err := net.Listen("tcp", "127.0.0.1:0")
+func (h *H) startReady() {
+	var lis net.Listener
+	var err error
+	addr := h.srvAddr
+	if addr == "" {
+		addr = "127.0.0.1:0"
+	}
+	for i := 0; i < 500; i++ {
+		lis, err = net.Listen("tcp", addr)
+		if err == nil {
+			break
+		}
+		time.Sleep(10 * time.Millisecond)
+	}
 	if err != nil {
 		panic(err)
 	}
-	srv := grpc.NewServer()
-	go srv.Serve(lis)
 	h.srvAddr = lis.Addr().String()
+	h.readySrv = grpc.NewServer()
+	go h.readySrv.Serve(lis)
+}
+
+func (h *H) waitReady(n int) bool {
+	ctx, cancel := context.WithTimeout(context.Background(), 2*waitLong)
+	defer cancel()
+	for _, conn := range h.conns[:n] {
+		for conn.GetState() != connectivity.Ready {
+			conn.ResetConnectBackoff()
+			conn.Connect()
+			st := conn.GetState()
+			if st == connectivity.Ready {
+				break
+			}
+			if !conn.WaitForStateChange(ctx, st) {
+				return false
+			}
+		}
+	}
+	return true
+}
+
+func (h *H) setup() {
+	util.EnableFailpoints()
+	h.startReady()
 	for cid := 0; cid < 2; cid++ {
 		conn, err := grpc.NewClient(h.srvAddr, grpc.WithTransportCredentials(insecure.NewCredentials()),
-			grpc.WithStreamInterceptor(h.interceptor(cid)))
+			grpc.WithStreamInterceptor(h.interceptor(cid)),
+			grpc.WithConnectParams(grpc.ConnectParams{
+				Backoff:           backoff.Config{BaseDelay: 10 * time.Millisecond, Multiplier: 1.2, Jitter: 0.1, MaxDelay: 100 * time.Millisecond},
+				MinConnectTimeout: time.Second,
+			}))
 		if err != nil {
 			panic(err)
 		}
-		conn.Connect()
-		ctx, cancel := context.WithTimeout(context.Background(), waitLong)
-		for conn.GetState() != connectivity.Ready {
-			if !conn.WaitForStateChange(ctx, conn.GetState()) {
-				panic("loopback conn not ready")
-			}
-		}
-		cancel()
 		h.conns = append(h.conns, conn)
+	}
+	if !h.waitReady(2) {
+		panic("loopback conn not ready")
 	}
 }
 
@@ -321,9 +365,9 @@ func (h *H) reset(n, limit, nfwd int) string {
 		h.restore = nil
 	}
 	w := &wb{n: n, nfwd: nfwd, streams: map[[2]int]*fakeStream{}, reqToH: map[*tikvpb.BatchCommandsRequest_Request]int{},
-		wire: map[int]int{}, idOwner: map[int]int{}, locked: make([]bool, n), sibKilled: map[[2]int]bool{}}
+		wire: map[int]int{}, idOwner: map[int]int{}, locked: make([]bool, n), sibKilled: map[[2]int]bool{}, hh: h}
 	h.cur.Store(w)
-	w.v = client.VerifNewBatch("verif-c18-wb", h.conns[:n], maxBatch, int64(limit), 5*time.Second)
+	w.v = client.VerifNewBatch("verif-c18-wb", h.conns[:n], maxBatch, int64(limit), 2*waitLong)
 	for cid := 0; cid < n; cid++ {
 		w.limits = append(w.limits, int64(limit))
 	}
@@ -375,7 +419,7 @@ func (c *caller) finish(r result) string {
 	p, _ := strconv.Atoi(string(g.Value))
 	c.out = "ok " + strconv.Itoa(p)
 	if p != echo(c.payload) {
-		return fmt.Sprintf("FAIL wrong-response h=%d payload=%d got=%d", c.h, c.payload, p)
+		return fmt.Sprintf("FAIL foreign-response got=%d want=%d h=%d (got the answer to payload %d, sent payload %d)", p, echo(c.payload), c.h, (p-1)/2, c.payload)
 	}
 	return fmt.Sprintf("ret %d %s", c.h, c.out)
 }
@@ -491,12 +535,75 @@ func (w *wb) drainFresh() bool {
 	return true
 }
 
-func (w *wb) flush() string {
+func goroutineIn(frame string) bool {
+	buf := make([]byte, 1<<20)
+	n := runtime.Stack(buf, true)
+	return strings.Contains(string(buf[:n]), frame)
+}
+
+func (w *wb) flush() string { return w.flushWith(nil, false) }
+
+// flushWith: getClientAndSend.  With down = true the connections are taken down first, so that the first `send` of a
+// group whose stream does not exist yet blocks in initBatchClient/waitConnReady; while it blocks (or, if nothing had to
+// block, right after it) the callers `cancels` cancel; then the connections come back and the sends go on.
+func (w *wb) flushWith(cancels []int, down bool) string {
 	if w.dirty {
 		w.v.BuilderReset()
 	}
 	w.dirty = true
-	groups := w.v.Flush()
+	var groups []client.VerifGroup
+	released := map[int]bool{}
+	if !down {
+		groups = w.v.Flush()
+	} else {
+		w.unlockAll()
+		w.mu.Lock()
+		for _, fs := range w.streams {
+			fs.sendFail.Store(false)
+		}
+		w.mu.Unlock()
+		w.hh.readySrv.Stop()
+		dl := time.Now().Add(waitLong)
+		for _, conn := range w.hh.conns[:w.n] {
+			for conn.GetState() == connectivity.Ready && time.Now().Before(dl) {
+				time.Sleep(100 * time.Microsecond)
+			}
+		}
+		done := make(chan []client.VerifGroup, 1)
+		go func() { done <- w.v.Flush() }()
+		finished := false
+		for time.Now().Before(dl) {
+			select {
+			case groups = <-done:
+				finished = true
+			default:
+			}
+			if finished || goroutineIn("batchCommandsClient).waitConnReady") {
+				break
+			}
+			time.Sleep(50 * time.Microsecond)
+		}
+		rets := w.collect(nil) // callers completed by the first half ("no available connections") leave first
+		for _, hd := range cancels {
+			if hd < len(w.callers) && !w.callers[hd].returned {
+				w.callers[hd].cancel()
+				released[hd] = true
+			}
+		}
+		rets = append(rets, w.collectOnly(released)...) // the canceled callers are back before the connection is
+		w.hh.startReady()
+		if !w.hh.waitReady(w.n) {
+			return "FAIL connection-not-ready-again"
+		}
+		if !finished {
+			select {
+			case groups = <-done:
+			case <-time.After(2 * waitLong):
+				return "FAIL send-blocked-for-ever"
+			}
+		}
+		w.pendingRets = rets
+	}
 	if !w.drainFresh() {
 		return "FAIL recv-loop-not-started"
 	}
@@ -517,6 +624,10 @@ func (w *wb) flush() string {
 	}
 	w.maxID = maxNow
 	w.mu.Lock()
+	if len(w.fails) > w.failsShown {
+		head = append(head, "FAIL "+w.fails[w.failsShown])
+		w.failsShown = len(w.fails)
+	}
 	for _, g := range groups {
 		parts := make([]string, len(g.Ids))
 		for i, id := range g.Ids {
@@ -526,7 +637,39 @@ func (w *wb) flush() string {
 	}
 	w.mu.Unlock()
 	head = append(head, w.heapStr(), fmt.Sprintf("ida %d", w.v.IdAlloc()))
-	return join(head, w.collect(nil))
+	rets := append(w.pendingRets, w.collect(nil)...)
+	w.pendingRets = nil
+	sort.SliceStable(rets, func(i, j int) bool { return retKey(rets[i]) < retKey(rets[j]) })
+	return join(head, rets)
+}
+
+// retKey orders "ret <h> ..." strings by handle (FAIL lines first)
+func retKey(s string) int {
+	f := strings.Fields(s)
+	if len(f) >= 2 && f[0] == "ret" {
+		n, _ := strconv.Atoi(f[1])
+		return n
+	}
+	return -1
+}
+
+// collectOnly waits for exactly the released callers.
+func (w *wb) collectOnly(released map[int]bool) []string {
+	var out []string
+	for _, c := range w.callers {
+		if c.returned || !released[c.h] {
+			continue
+		}
+		select {
+		case r := <-c.done:
+			out = append(out, c.finish(r))
+		case <-time.After(waitLong):
+			out = append(out, fmt.Sprintf("FAIL caller-stuck h=%d", c.h))
+			c.returned = true
+			w.stuckSeen = true
+		}
+	}
+	return out
 }
 
 func (w *wb) stream(cid, fwd int) *fakeStream {
@@ -823,6 +966,8 @@ func (h *H) exec(line string) string {
 			return join([]string{w.heapStr()}, w.collect(nil))
 		case f[0] == "flush" && len(a) == 0:
 			return w.flush()
+		case f[0] == "flushwait":
+			return w.flushWith(a, true)
 		case f[0] == "recv" && len(a) >= 2:
 			if a[0] >= w.n {
 				return "nostream"
@@ -1215,7 +1360,7 @@ func (h *H) rebreak(seed, nconn, ncallers, rounds, faults int) string {
 			v, err := send(next, fwd, 2*time.Second)
 			if err == nil {
 				if v != echo(next) {
-					return fmt.Sprintf("FAIL wrong-response payload=%d got=%d", next, v)
+					return fmt.Sprintf("FAIL foreign-response got=%d want=%d (sent payload %d)", v, echo(next), next)
 				}
 				okCalls++
 			}
@@ -1332,7 +1477,7 @@ func (h *H) looppanic(seed, nconn, ncallers, rounds, faults int) string {
 		}
 		h.run.Count("bb:looppanic:ok")
 		if r.v != echo(r.payload) {
-			return fmt.Sprintf("FAIL wrong-response payload=%d got=%d (echo of payload %d)", r.payload, r.v, (r.v-1)/2)
+			return fmt.Sprintf("FAIL foreign-response got=%d want=%d (got the answer to payload %d, sent payload %d)", r.v, echo(r.payload), (r.v-1)/2, r.payload)
 		}
 		return ""
 	}
@@ -1427,7 +1572,135 @@ func (h *H) looppanic(seed, nconn, ncallers, rounds, faults int) string {
 	return "ok"
 }
 
+// cancelwait: a fresh pool against a store that is DOWN.  A first call keeps the send loop busy (its send waits for the
+// connection until the dial time-out), meanwhile ncallers calls queue up and are collected into one batch whose send
+// waits for the connection again; a seeded subset of them (any position) cancels while it waits; then an ECHOING store
+// comes up.  Every call returns the echo of ITS OWN payload or an error.  Timing only decides how often the window is
+// hit, never the verdict.  faults&fForward: half of the calls go through a forwarded-host stream.
+func (h *H) cancelwait(seed, nconn, ncallers, rounds, faults int) string {
+	h.cur.Load().endCase()
+	if nconn != 1 || ncallers < 2 || ncallers > 8 {
+		return "bad-op"
+	}
+	rng := vx.NewRand(uint64(seed)*31 + 7)
+	restore := config.UpdateGlobal(func(c *config.Config) {
+		c.TiKVClient.MaxBatchSize = maxBatch
+		c.TiKVClient.GrpcConnectionCount = 1
+	})
+	defer restore()
+	srv := &echoServer{seed: uint64(seed), resolve: map[uint64]int{}}
+	srv.start("")
+	addr := srv.addr
+	srv.stop() // the address is known, the store is down
+	up := false
+	defer func() {
+		if up {
+			srv.stop()
+		}
+	}()
+	rpc := client.NewRPCClient()
+	defer rpc.Close()
+	type res struct {
+		payload, v int
+		err        error
+	}
+	send := func(ctx context.Context, payload int, fwd string, tmo time.Duration) res {
+		req := tikvrpc.NewRequest(tikvrpc.CmdGet, &kvrpcpb.GetRequest{Key: []byte(strconv.Itoa(payload))})
+		req.ForwardedHost = fwd
+		resp, err := rpc.SendRequest(ctx, addr, req, tmo)
+		if err != nil {
+			return res{payload, 0, err}
+		}
+		g, ok := resp.Resp.(*kvrpcpb.GetResponse)
+		if !ok {
+			return res{payload, -1, nil}
+		}
+		v, _ := strconv.Atoi(string(g.Value))
+		return res{payload, v, nil}
+	}
+	// the call that keeps the send loop waiting for the connection (fails at the dial time-out)
+	x0 := make(chan res, 1)
+	go func() { x0 <- send(context.Background(), 1, "", waitLong) }()
+	time.Sleep(100 * time.Millisecond)
+	type cl struct {
+		payload int
+		cancel  context.CancelFunc
+		out     chan res
+		cancels bool
+	}
+	var cs []*cl
+	for i := 0; i < ncallers; i++ {
+		c := &cl{payload: 10 + i, out: make(chan res, 1)}
+		ctx, cancel := context.WithCancel(context.Background())
+		c.cancel = cancel
+		fwd := ""
+		if faults&fForward != 0 && i%2 == 1 {
+			fwd = "fwd1"
+		}
+		cs = append(cs, c)
+		go func() { c.out <- send(ctx, c.payload, fwd, waitLong) }()
+		time.Sleep(2 * time.Millisecond) // keep the submission order = payload order
+	}
+	// seeded cancel pattern: never everybody, prefer "not the last one"
+	n := 0
+	for i, c := range cs {
+		if i < len(cs)-1 && rng.Chance(45) {
+			c.cancels = true
+			n++
+		}
+	}
+	if n == 0 {
+		cs[0].cancels = true
+	}
+	select {
+	case <-x0: // the loop is done with the first call and moves on to the batch of the queued calls
+	case <-time.After(2 * waitLong):
+		return "FAIL first-call-stuck"
+	}
+	time.Sleep(300 * time.Millisecond)
+	for _, c := range cs {
+		if c.cancels {
+			c.cancel()
+		}
+	}
+	time.Sleep(50 * time.Millisecond)
+	srv.start(addr)
+	up = true
+	for _, c := range cs {
+		select {
+		case r := <-c.out:
+			if r.err != nil {
+				h.run.Count("bb:cancelwait:err:" + errClass(r.err))
+				continue
+			}
+			h.run.Count("bb:cancelwait:ok")
+			if r.v != echo(r.payload) {
+				return fmt.Sprintf("FAIL foreign-response got=%d want=%d (got the answer to payload %d, sent payload %d)", r.v, echo(r.payload), (r.v-1)/2, r.payload)
+			}
+		case <-time.After(2*waitLong + bbSlack):
+			return fmt.Sprintf("FAIL caller-stuck payload=%d", c.payload)
+		}
+		c.cancel()
+	}
+	// pairing as the store saw it is checked by the echo itself; ids strictly increasing per stream
+	srv.mu.Lock()
+	defer srv.mu.Unlock()
+	for _, st := range srv.streams {
+		var last uint64
+		for _, id := range st.ids {
+			if id <= last {
+				return fmt.Sprintf("FAIL ids-not-increasing id=%d after=%d", id, last)
+			}
+			last = id
+		}
+	}
+	return "ok"
+}
+
 func (h *H) blackbox(scn string, seed, nconn, ncallers, nreq, faults int) string {
+	if scn == "cancelwait" {
+		return h.cancelwait(seed, nconn, ncallers, nreq, faults)
+	}
 	if scn == "looppanic" {
 		return h.looppanic(seed, nconn, ncallers, nreq, faults)
 	}
@@ -1590,7 +1863,7 @@ func (h *H) blackbox(scn string, seed, nconn, ncallers, nreq, faults int) string
 			if c.gotOK {
 				h.run.Count("bb:ok")
 				if c.got != echo(c.payload) {
-					return fmt.Sprintf("FAIL wrong-response payload=%d got=%d", c.payload, c.got)
+					return fmt.Sprintf("FAIL foreign-response got=%d want=%d (sent payload %d)", c.got, echo(c.payload), c.payload)
 				}
 			} else {
 				h.run.Count("bb:err:" + c.errCls)
@@ -1714,8 +1987,12 @@ func genCase(r *vx.Rand, emit func(string), nops int) {
 		case x < 97:
 			emit(fmt.Sprintf("setlimit %d %d", r.Intn(n), []int{0, 1, 2, 4, defLimit}[r.Intn(5)]))
 		case x < 98:
-			emit("panicloop")
-			inCh = 0
+			if r.Bool() {
+				emit("panicloop")
+				inCh = 0
+			} else {
+				emit(strings.TrimSpace(fmt.Sprintf("flushwait %d", r.Intn(subs))))
+			}
 		default:
 			emit("fetch 128")
 			emit("flush")
@@ -1808,6 +2085,52 @@ func genLoopPanic(r *vx.Rand, emit func(string), k int) {
 	emit("audit")
 }
 
+// genCancelWait: 2-6 callers (direct and forwarded) are collected into one batch; the send waits for the connection
+// (no stream yet, connection down); a subset in any position cancels meanwhile; then every id is answered.
+func genCancelWait(r *vx.Rand, emit func(string), rounds int) {
+	n, nfwd := 1+r.Intn(2), r.Intn(3)
+	emit(fmt.Sprintf("reset %d %d %d", n, defLimit, nfwd))
+	subs := 0
+	for round := 0; round < rounds; round++ {
+		first := subs
+		m := 2 + r.Intn(5)
+		for i := 0; i < m; i++ {
+			emit(fmt.Sprintf("submit %d %d %d", 1000+subs, r.Intn(16), r.Intn(nfwd+1)))
+			subs++
+		}
+		emit("fetch 128")
+		var cs []string
+		switch r.Intn(4) {
+		case 0: // the first of the batch
+			cs = append(cs, strconv.Itoa(first))
+		case 1: // one in the middle
+			cs = append(cs, strconv.Itoa(first+1+r.Intn(m-1)-r.Intn(2)*0))
+		default:
+			for i := 0; i < m; i++ {
+				if r.Chance(40) {
+					cs = append(cs, strconv.Itoa(first+i))
+				}
+			}
+		}
+		if r.Chance(20) && first > 0 {
+			cs = append(cs, strconv.Itoa(r.Intn(first))) // and somebody of an earlier batch
+		}
+		emit(strings.TrimSpace("flushwait " + strings.Join(cs, " ")))
+		ids := make([]string, subs)
+		for i := range ids {
+			ids[i] = strconv.Itoa(i + 1)
+		}
+		for c := 0; c < n; c++ {
+			emit(fmt.Sprintf("recv %d %d %s", c, r.Intn(nfwd+1), strings.Join(ids, " ")))
+		}
+		if r.Chance(40) {
+			emit(fmt.Sprintf("kill %d %d", r.Intn(n), r.Intn(nfwd+1)))
+		}
+	}
+	emit("close")
+	emit("audit")
+}
+
 func main() {
 	run := vx.Start()
 	defer run.Finish()
@@ -1863,6 +2186,16 @@ func main() {
 			}
 		}
 	}
+	// directed family: callers cancel while the batch waits for the connection
+	ncw := 8
+	if run.Thorough() {
+		ncw = 60
+	}
+	for rep := 0; rep < ncw; rep++ {
+		newCase()
+		run.Count("family:cancelwait")
+		genCancelWait(r.Fork(), do, 1+rep%3)
+	}
 	// directed family: the send loop panics and recovers 1..3 times with unanswered requests
 	for rep := 0; rep < nre; rep++ {
 		for k := 1; k <= 3; k++ {
@@ -1901,16 +2234,22 @@ func main() {
 		// the send loop panics and recovers nreq times while a request is unanswered
 		{"looppanic", 1, 3, 1, 0},
 		{"looppanic", 1, 2, 2, 0},
+		// callers cancel while their batch waits for the connection of a store that is down at first
+		{"cancelwait", 1, 4, 1, 0},
+		{"cancelwait", 1, 6, 1, fForward},
 	}
 	for rep := 0; rep < nbb; rep++ {
 		for _, s := range base {
+			if s.name == "cancelwait" && !run.Thorough() && s.faults != 0 {
+				continue // ~6 s each (dial time-out): one in the quick tier, both in the thorough tier
+			}
 			newCase()
 			do("reset 1 1000000 0")
 			sc := 1
 			if run.Thorough() {
 				sc = 2
 			}
-			if s.name == "rebreak" || s.name == "looppanic" {
+			if s.name == "rebreak" || s.name == "looppanic" || s.name == "cancelwait" {
 				sc = 1
 			}
 			do(fmt.Sprintf("bb %s %d %d %d %d %d", s.name, r.Intn(1<<30), s.nconn, s.ncallers*sc, s.nreq, s.faults))
